@@ -150,6 +150,28 @@ func runC08(c *Check) {
 	c08Context(c, P, r)
 	// O4
 	c02NoPublisher(c, P+".O4")
+	var pubErrCalls []ssa.CallInstruction
+	for _, pc := range r.PubCalls {
+		if _, isCall := pc.(*ssa.Call); isCall {
+			pubErrCalls = append(pubErrCalls, pc)
+		}
+	}
+	c02HelperResult(c, P+".O4", r.RouterRoles, pubErrCalls)
+	// the handler's publisher / subscriber fields only ever hold the handler's own Pub/Sub, possibly decorated
+	for _, pair := range []struct {
+		f    *types.Var
+		what string
+	}{{r.HPub, "publisher"}, {r.HSub, "subscriber"}} {
+		for _, fn := range r.Funcs {
+			if fn == r.AddHandler {
+				continue
+			}
+			for _, st := range FieldStores(fn, pair.f) {
+				c.Report(ownOrDecorated(st.Val, pair.f), P+".O1", "WIRING/own-"+pair.what, fn, st.Pos(), "store to the handler's "+pair.what,
+					"the handler's "+pair.what+" is only ever replaced by a decoration of its own "+pair.what+" (never by another handler's or a cached one)")
+			}
+		}
+	}
 }
 
 func sameBase(addr ssa.Value, recv ssa.Value) bool {
@@ -215,7 +237,7 @@ func c02NoPublisher(c *Check, id string) {
 		if c.Use(id, ad5, "no-publisher adapter closure") {
 			okA := true
 			for _, r := range Returns(ad5) {
-				if !IsNilConst(r.Results[0]) {
+				if !RetNil(r, 0) {
 					okA = false
 				}
 			}
@@ -565,6 +587,23 @@ func runC09(c *Check) {
 			c.Report(okL, P+".O4", "SNAPSHOT-LOCKED", r.StartLit, app.Pos(), "snapshot", "the copy is taken with a router lock held", "held: "+held.String())
 		}
 	}
+	// decoration happens once per handler: in RunHandlers the functions that replace the handler's publisher / subscriber
+	// are called only on the not-yet-started edge
+	_, notStarted := BoolEdges(r.RunHandlers, func(v ssa.Value) bool { return AllOrigins(v, IsFieldLoad(r.HStarted)) })
+	ndec := 0
+	for _, cl := range CallsIn(r.RunHandlers) {
+		cal := CalleeFn(cl.Common())
+		if cal == nil || cal.Pkg != r.RunHandlers.Pkg {
+			continue
+		}
+		if len(FieldStores(cal, r.HPub))+len(FieldStores(cal, r.HSub)) == 0 {
+			continue
+		}
+		ndec++
+		c.Report(len(notStarted) > 0 && GuardedBy(r.RunHandlers, cl, notStarted), P+".O2", "DECORATE-ONCE", r.RunHandlers, cl.Pos(), "decorate call "+fmt.Sprint(ndec),
+			"a handler's publisher and subscriber are decorated only when the handler is started (a later RunHandlers call must not wrap them again)")
+	}
+	c.Floor(P+".O2", "decorate calls in RunHandlers", ndec, 2)
 	// decorators
 	for _, fn := range r.Funcs {
 		if fn.Parent() != nil || fn.Signature.Recv() == nil || NamedOf(fn.Signature.Recv().Type()) != r.R {
@@ -861,4 +900,43 @@ func LoadedFieldIsMapOf(v ssa.Value, t *types.Named) bool {
 	}
 	m, ok := f.Type().(*types.Map)
 	return ok && NamedOf(m.Elem()) == t
+}
+
+// ownOrDecorated: v is a load of field f, or the result of a dynamic
+// (decorator) call whose argument is again ownOrDecorated.
+func ownOrDecorated(v ssa.Value, f *types.Var) bool {
+	seen := map[ssa.Value]bool{}
+	var rec func(v ssa.Value) bool
+	rec = func(v ssa.Value) bool {
+		if seen[v] {
+			return true
+		}
+		seen[v] = true
+		os := Origins(v)
+		if len(os) == 0 {
+			return false
+		}
+		for _, o := range os {
+			if LoadedField(o) == f {
+				continue
+			}
+			var call *ssa.Call
+			if e, ok := o.(*ssa.Extract); ok && e.Index == 0 {
+				call, _ = e.Tuple.(*ssa.Call)
+			} else if cl, ok := o.(*ssa.Call); ok {
+				call = cl
+			}
+			if call == nil || call.Call.IsInvoke() || len(call.Call.Args) != 1 {
+				return false
+			}
+			if cal := CalleeFn(&call.Call); cal != nil && cal.Parent() == nil {
+				return false // a named function is not a decorator value
+			}
+			if !rec(call.Call.Args[0]) {
+				return false
+			}
+		}
+		return true
+	}
+	return rec(v)
 }
